@@ -452,16 +452,20 @@ def evaluate(h, out, rc, timed_out, wall, logf):
 # ---------------------------------------------------------------------------
 # replay of a counterexample (Kani concrete playback, dev + release profile)
 
-def replay(crate, h, tdir, logdir):
+PLAYBACK_FLAGS = ["-Z", "concrete-playback", "--concrete-playback=inplace"]
+
+
+def replay(crate, h, tdir, logdir, profiles=("dev", "release")):
     """returns dict(reproduced: bool|None, test: str, log: str)"""
     res = {"reproduced": None, "test": "", "detail": ""}
-    out, rc, to, wall, logf = run_kani(
-        crate, h, tdir, logdir,
-        extra=["-Z", "concrete-playback", "--concrete-playback=inplace"],
-        timeout=h.timeout * 2, mem=max(32, h.mem * 3),  # producing the trace needs more memory than the verdict
-        suffix=".playback-gen")
     hfile = os.path.join(crate, "verif_h", h.file)
     src = open(hfile).read()
+    if not re.search(r"fn kani_concrete_playback_%s_\w+\(" % re.escape(h.name), src):
+        # the deciding run could not produce the trace (it needs more memory than the verdict): run again
+        out, rc, to, wall, logf = run_kani(
+            crate, h, tdir, logdir, extra=PLAYBACK_FLAGS,
+            timeout=h.timeout * 2, mem=max(32, h.mem * 3), suffix=".playback-gen")
+        src = open(hfile).read()
     # Kani emits one test per failing check; identical counterexamples get identical names: dedupe
     blk_re = re.compile(r"(?:///[^\n]*\n|\s*\n)*#\[test\]\s*\nfn (kani_concrete_playback_\w+)\(\) \{.*?\n\}\n", re.S)
     seen_names = set()
@@ -484,7 +488,7 @@ def replay(crate, h, tdir, logdir):
                         % re.escape(h.name), src, re.S)
     res["test"] = "\n".join(blocks)
     verdicts = []
-    for prof in ("dev", "release"):
+    for prof in profiles:
         env = dict(ENV)
         ptd = os.path.join(tdir, "playback-" + prof)
         pcache = os.path.join(CACHE, "playback-%s-%s" % (prof, cache_key()))
@@ -569,16 +573,40 @@ def match_known(known, prop, hname, desc):
 # re-solved when another property of the same run needs it again.  Content
 # addressed; disabled with VERIF_NO_CACHE=1.  Only passes are cached.
 
+CACHE_VERSION = "v3"   # bump when the classification of CBMC results in this file changes
+
+
+def _harness_view(h):
+    """the harness file with the blocks of all OTHER harnesses removed: editing one harness must not
+    invalidate the cached verdicts of its neighbours, editing a shared helper must"""
+    lines = open(os.path.join(KANI_DIR, h.file)).read().split("\n")
+    out = []
+    i = 0
+    while i < len(lines):
+        m = re.match(r"//@ harness:\s*(\w+)", lines[i])
+        if m and m.group(1) != h.name:
+            # skip to the closing brace of that harness function
+            j = i
+            while j < len(lines) and not re.match(r"fn %s\(" % re.escape(m.group(1)), lines[j]):
+                j += 1
+            while j < len(lines) and lines[j] != "}":
+                j += 1
+            i = j + 1
+            continue
+        out.append(lines[i])
+        i += 1
+    return "\n".join(out)
+
+
 def _cache_key(h, src_sha):
     hh = hashlib.sha256()
     hh.update(src_sha.encode())
-    for fn in (h.file, "kstub.rs"):
-        hh.update(open(os.path.join(KANI_DIR, fn), "rb").read())
+    hh.update(_harness_view(h).encode())
+    hh.update(open(os.path.join(KANI_DIR, "kstub.rs"), "rb").read())
     lock = os.path.join(REPO, "Cargo.lock")
     if os.path.exists(lock):
         hh.update(open(lock, "rb").read())
-    hh.update(open(os.path.abspath(__file__), "rb").read())
-    hh.update(("%s|%s|%s|kani-0.68.0" % (h.name, h.flags, h.unwind)).encode())
+    hh.update(("%s|%s|%s|%s|kani-0.68.0" % (CACHE_VERSION, h.name, h.flags, h.unwind)).encode())
     return hh.hexdigest()[:24]
 
 
@@ -665,12 +693,15 @@ def run_property_kani(prop, tier, harnesses, seed):
             def job(h, idx):
                 tdir = os.path.join(d, "target-%d" % idx)
                 clone_target(cache_tdir, tdir)
-                out, rc, to, wall, logf = run_kani(crate, h, tdir, logdir)
+                out, rc, to, wall, logf = run_kani(crate, h, tdir, logdir, extra=PLAYBACK_FLAGS)
                 r = evaluate(h, out, rc, to, wall, logf)
                 if r.status == "fail":
                     log("  %s: obligation failed, replaying natively ..." % h.name)
                     try:
-                        r.replay = replay(crate, h, tdir, logdir)
+                        # quick tier: dev profile only (time budget of the per-change check);
+                        # thorough tier: dev and release-like profile
+                        profs = ("dev",) if tier == "quick" else ("dev", "release")
+                        r.replay = replay(crate, h, tdir, logdir, profiles=profs)
                     except Exception as e:  # noqa
                         r.replay = {"reproduced": None, "test": "", "detail": "replay error: %r" % e}
                 shutil.rmtree(tdir, ignore_errors=True)
